@@ -13,7 +13,7 @@ BUDGET = 10_000_000
 MAXLEN = 8192
 RULE = ("inputs <= 8 KiB, nesting depth <= 64, both providers, entry points Calendar/Component/Event.from_ical with multiple in {False, True}, input as bytes or (when UTF-8) as str: random bytes; "
         "iCalendar token soup; structured mutants (G5) of the fixtures, the fuzz corpus and generated calendars, biased to VTIMEZONE blocks, TZID parameters, "
-        "mismatched BEGIN/END, duplicated singletons, truncation; a hostile TZID list (tz-database directory names, '.', '..', 300-character ids, NUL, "
+        "mismatched BEGIN/END, duplicated singletons, truncation; a hostile TZID list (tz-database directory names, '.', '..', 300-character ids, ids at the file system's octet limits (<= 255 characters but > 255 octets, a 255-octet last segment, 2100 path segments), NUL, "
         "Windows names, posix/...); malformed VTIMEZONE definitions; property lines whose typed value is drawn from a grammar of numeric boundaries per RFC 5545 value type "
         "(DURATION sign x weeks/days/time parts around 999999999 days, DATE/DATE-TIME fields around year 0001/9999 and 24:60:60 with edge zones, PERIOD, UTC-OFFSET, INTEGER, FLOAT, RECUR parts). (a) only ValueError may leave from_ical, and nothing may leave to_ical()/walk() of what "
         "was returned; (b) bounded progress: <= 10^7 interpreter function-entry events (sys.monitoring PY_START|PY_RESUME, all frames) per case; (c) "
